@@ -71,7 +71,7 @@ def run(tier, seed, replay=None):
     memseq.init()
     out, rej = memseq.judge("C10", tier, seed, replay, cases,
                             "one trace per (value, data, lock byte state, addressing kind, unit variant, fault kind and "
-                            "position, bank length / hole); non-trivial = distinct cases with >= 2 commands")
+                            "position, bank length / hole); non-trivial = distinct cases with >= 2 commands", model_ops=("write",))
     out.assumptions = ["documented exceptions = MemoryLocationNotWriteable, MemoryWriteFailure, ResponseError, "
                        "MemoryValueNotWriteable, MemoryLocationNotImplemented",
                        "only byte strings of the permitted length are generated",
